@@ -370,6 +370,10 @@ func (e *evaluator) path(v ssa.Value) string {
 		if t, ok := e.env[x]; ok {
 			return t.String()
 		}
+		// a local copy of a record loaded from memory once (b := xs[i]; b.f): name it by its source
+		if src := soleCopySource(x); src != nil {
+			return e.path(src)
+		}
 		return "local:" + x.Comment
 	case *ssa.Slice:
 		return e.eval(x).String()
@@ -955,4 +959,51 @@ func substitute(t *term, name string, repl *term) *term {
 		args[i] = substitute(a, name, repl)
 	}
 	return norm(&term{op: t.op, name: t.name, c: t.c, args: args})
+}
+
+// soleCopySource: the local is written exactly once, as a whole, with a value
+// loaded from memory (a struct copy), and its address does not escape to calls
+// or stores; returns the address it was copied from.
+func soleCopySource(al *ssa.Alloc) ssa.Value {
+	if al.Referrers() == nil {
+		return nil
+	}
+	if _, isStruct := al.Type().Underlying().(*types.Pointer).Elem().Underlying().(*types.Struct); !isStruct {
+		return nil
+	}
+	var src ssa.Value
+	n := 0
+	for _, ref := range *al.Referrers() {
+		switch x := ref.(type) {
+		case *ssa.Store:
+			if x.Addr != ssa.Value(al) {
+				return nil // the address itself is stored somewhere
+			}
+			n++
+			ld, ok := x.Val.(*ssa.UnOp)
+			if !ok || ld.Op != token.MUL {
+				return nil
+			}
+			src = ld.X
+		case *ssa.FieldAddr:
+			// field reads only: a store through the field address makes it a distinct object
+			for _, r2 := range *x.Referrers() {
+				if st, ok := r2.(*ssa.Store); ok && st.Addr == ssa.Value(x) {
+					return nil
+				}
+				if _, ok := r2.(*ssa.UnOp); !ok {
+					if _, isDbg := r2.(*ssa.DebugRef); !isDbg {
+						return nil
+					}
+				}
+			}
+		case *ssa.UnOp, *ssa.DebugRef:
+		default:
+			return nil
+		}
+	}
+	if n != 1 {
+		return nil
+	}
+	return src
 }
